@@ -471,4 +471,58 @@ def iterLoop (reset : Bool) : Nat → It → List Nat → Option (List Nat × It
 def RB.iterAll (reset : Bool) (r : RB) : Option (List Nat × It) :=
   iterLoop reset (r.len.toNat + 1) r.iter []
 
+/-! ### held handles
+
+A held `iter.Seq[uint32]` (the value `All()` returns) is a closure over the OBJECT: it carries
+no data of its own, so ranging it is running `All`'s body on the state the bitmap has when it
+is ranged.  A held `RoaringBitmapIter` is a value `{node, iter}` (`It`), valid while the bitmap
+is not mutated. -/
+
+/-- Range a held Seq with a callback answering false on its `stop`-th call (0: never). -/
+def RB.seqRange (r : RB) (stop : Nat) : List Nat := r.all stop
+
+/-- Range a held Seq breaking after `j` elements, then range it again fully. -/
+def RB.seqTwice (r : RB) (j : Nat) : List Nat × List Nat := (r.all j, r.all 0)
+
+/-- `for a := range seq { inner := 0; for range seq { inner++ }; record a, inner; break after j }`:
+the outer loop sees what `All` delivers to a `yield` that answers false at its `j`-th call; for
+each of those elements the inner loop is a full range. -/
+def RB.seqNest (r : RB) (j : Nat) : List Nat × List Nat :=
+  let outer := r.all j
+  (outer, outer.map fun _ => (r.all 0).length)
+
+/-- Two `iter.Pull` cursors over the same held Seq, alternated; cursor 1 is stopped after `a`
+values (`a = 0`: runs to the end).  Each cursor runs `All`'s body in its own coroutine. -/
+def RB.pull2 (r : RB) (a : Nat) : List Nat × List Nat := (r.all a, r.all 0)
+
+/-- Up to `n` times: `if !it.Next() { stop }; collect it.Value()` on the repaired iterator.
+Result: the values, the iterator afterwards, and whether all `n` calls of `Next` answered
+true; `none` = `Value` panicked. -/
+def It.steps : Nat → It → List Nat → Option (List Nat × It × Bool)
+  | 0, it, acc => some (acc.reverse, it, true)
+  | n + 1, it, acc =>
+    match it.next true with
+    | (it', false) => some (acc.reverse, it', false)
+    | (it', true) => match it'.value with
+      | none => none
+      | some v => It.steps n it' (v :: acc)
+
+/-- The loop of `itPairs`: `j` = outer elements still wanted. -/
+def itPairsLoop (r : RB) : Nat → It → List Nat → List Nat → Option (List Nat × List Nat)
+  | 0, _, xs, cs => some (xs.reverse, cs.reverse)
+  | j + 1, a, xs, cs =>
+    match a.next true with
+    | (_, false) => some (xs.reverse, cs.reverse)
+    | (a', true) => match a'.value with
+      | none => none
+      | some x =>
+        -- b := rb.Iter(); c := 0; for b.Next() { c++ }
+        match r.iterAll true with
+        | none => none
+        | some (ys, _) => itPairsLoop r j a' (x :: xs) (ys.length :: cs)
+
+/-- `a := rb.Iter(); for a.Next() { x := a.Value(); b := rb.Iter(); c := 0; for b.Next() { c++ };
+record x, c; stop after j outer elements }`: two iterators alive in the same bitmap. -/
+def RB.itPairs (r : RB) (j : Nat) : Option (List Nat × List Nat) := itPairsLoop r j r.iter [] []
+
 end Golib.C03
